@@ -17,8 +17,8 @@ pub fn def02() -> PropDef {
     PropDef {
         info: PropInfo {
             id: "C02",
-            rule: "layouts: packet of 0-64 bytes and metadata buffer absent or 8-64 bytes, each placed start- or end-against a PROT_NONE page; 0-3 registered ranges of 1-32 bytes inside a canary-filled arena, some separated by holes of only 1-7 bytes. probes: one access instruction {ldx, st, stx, xadd, ldabs, ldind} x width {1,2,4,8} whose effective address is a region boundary (start or end of packet / metadata / each range / the stack) plus a delta in [-9,+9], or 0, 1, u64::MAX-k, a base+offset sum that wraps past 2^64, or a far address; base value and displacement are split randomly between register and 16-bit offset (imm+src for ldind); a quarter of the probes first perform a narrower access through the same register and offset; in a quarter of the layouts the metadata buffer starts 1-7 bytes after the end of the packet. Oracle (computed from the real addresses inside the child): allowed <=> all bytes inside exactly one region (and naturally aligned for xadd); allowed => Ok with the exact loaded value / exactly the stored bytes changed; refused => Err (never a panic or signal) and no byte of packet, metadata, arena or canaries changed. The thorough tier additionally enumerates every (region boundary, delta, kind, width) combination for fixed layouts. Non-trivial = effective address within 9 bytes of a region boundary, or wrapped; distinct by hash of layout+probe.",
-            assumptions: &["the interpreter's stack is reached through r10-relative probes (its absolute address is unknown); loads from it only have to succeed", "registered ranges never touch or overlap each other or the other regions (holes of 1-7 bytes between two ranges are generated on purpose)"],
+            rule: "layouts: packet of 0-64 bytes and metadata buffer absent or 8-64 bytes, each placed start- or end-against a PROT_NONE page; 0-3 registered ranges of 1-32 bytes inside a canary-filled arena, some separated by holes of only 1-7 bytes; in a third of the layouts one more registered range covers all the others (extended by 0-3 bytes on either side) and is registered last, first, second, or with the whole order reversed. probes: one access instruction {ldx, st, stx, xadd, ldabs, ldind} x width {1,2,4,8} whose effective address is a region boundary (start or end of packet / metadata / each range / the stack) plus a delta in [-9,+9], or 0, 1, u64::MAX-k, a base+offset sum that wraps past 2^64, or a far address; base value and displacement are split randomly between register and 16-bit offset (imm+src for ldind); a quarter of the probes first perform a narrower access through the same register and offset; in a quarter of the layouts the metadata buffer starts 1-7 bytes after the end of the packet. Oracle (computed from the real addresses inside the child): allowed <=> all bytes inside exactly one region (and naturally aligned for xadd); allowed => Ok with the exact loaded value / exactly the stored bytes changed; refused => Err (never a panic or signal) and no byte of packet, metadata, arena or canaries changed. The thorough tier additionally enumerates every (region boundary, delta, kind, width) combination for fixed layouts. Non-trivial = effective address within 9 bytes of a region boundary, or wrapped; distinct by hash of layout+probe.",
+            assumptions: &["the interpreter's stack is reached through r10-relative probes (its absolute address is unknown); loads from it only have to succeed", "registered ranges never touch or partially overlap each other or the other regions (holes of 1-7 bytes between two ranges, and one range that wholly contains the others, are generated on purpose): an access inside the union of two partially overlapping ranges but inside neither is left undecided by the statement"],
         },
         run: run02,
         replay: replay02,
@@ -53,6 +53,10 @@ pub struct Layout {
     /// 0 = packet and metadata buffer live in separate arenas; 1-7 = the metadata buffer starts
     /// this many bytes after the end of the packet (two regions with a small hole in between)
     mbuff_gap: u8,
+    /// bit 0: one more registered range that covers all the others (bits 1-2 / 3-4: bytes it
+    /// extends below / above them); bits 5-6: where it comes in the order of registration
+    /// (last, first, everything reversed, second)
+    cover: u8,
 }
 
 #[derive(Clone, Copy, Debug, PartialEq, Eq)]
@@ -94,8 +98,8 @@ pub struct Probe {
 
 fn layout(with_ranges: bool) -> impl Strategy<Value = Layout> {
     let ranges = if with_ranges { prop::collection::vec((any::<u8>(), 1u8..33, prop_oneof![2 => Just(0u8), 1 => 1u8..8]), 0..4).boxed() } else { Just(vec![]).boxed() };
-    (prop_oneof![1 => Just(0u8), 5 => 1u8..65], any::<bool>(), prop_oneof![1 => Just(0u8), 3 => 8u8..65], any::<bool>(), ranges, any::<u8>(), prop_oneof![3 => Just(0u8), 1 => 1u8..8])
-        .prop_map(|(pkt_len, pkt_at_end, mbuff_len, mbuff_at_end, ranges, fill, mbuff_gap)| Layout { pkt_len, pkt_at_end, mbuff_len, mbuff_at_end, ranges, fill, mbuff_gap })
+    (prop_oneof![1 => Just(0u8), 5 => 1u8..65], any::<bool>(), prop_oneof![1 => Just(0u8), 3 => 8u8..65], any::<bool>(), ranges, any::<u8>(), prop_oneof![3 => Just(0u8), 1 => 1u8..8], prop_oneof![2 => Just(0u8), 1 => any::<u8>().prop_map(|x| x | 1)])
+        .prop_map(|(pkt_len, pkt_at_end, mbuff_len, mbuff_at_end, ranges, fill, mbuff_gap, cover)| Layout { pkt_len, pkt_at_end, mbuff_len, mbuff_at_end, ranges, fill, mbuff_gap, cover })
 }
 
 fn probe(nregions: u8, cranelift: bool) -> impl Strategy<Value = Probe> {
@@ -116,7 +120,7 @@ fn probe(nregions: u8, cranelift: bool) -> impl Strategy<Value = Probe> {
 
 pub fn case_strategy(with_ranges: bool, cranelift: bool) -> impl Strategy<Value = (Layout, Probe)> {
     layout(with_ranges).prop_flat_map(move |l| {
-        let n = 2 + l.ranges.len() as u8;
+        let n = 2 + l.ranges.len() as u8 + (l.cover & 1 != 0 && !l.ranges.is_empty()) as u8;
         (Just(l), probe(n, cranelift))
     })
 }
@@ -183,6 +187,11 @@ impl Mem {
             };
             regs.push((start, *len as u64));
             prev_end = Some(start + *len as u64);
+        }
+        if l.cover & 1 != 0 && regs.len() > 2 {
+            let lo = regs[2..].iter().map(|r| r.0).min().unwrap() - ((l.cover >> 1) & 3) as u64;
+            let hi = regs[2..].iter().map(|r| r.0 + r.1).max().unwrap() + ((l.cover >> 3) & 3) as u64;
+            regs.push((lo, hi - lo));
         }
         Regions { regs }
     }
@@ -413,7 +422,20 @@ unsafe fn child_probe(mem: &Mem, l: &Layout, p: &Probe, eng: Eng) {
             return;
         }
     };
-    for (s, len) in regs.regs.iter().skip(2) {
+    let mut to_register: Vec<(u64, u64)> = regs.regs[2..].to_vec();
+    if l.cover & 1 != 0 && to_register.len() > 1 {
+        // the covering range is the last of the list; registration order is part of the input
+        match (l.cover >> 5) & 3 {
+            0 => {}
+            1 => to_register.rotate_right(1),
+            2 => to_register.reverse(),
+            _ => {
+                let c = to_register.pop().unwrap();
+                to_register.insert(1, c);
+            }
+        }
+    }
+    for (s, len) in &to_register {
         vm.register_allowed_memory(*s..*s + *len);
     }
     // expected memory image
@@ -633,7 +655,7 @@ extern "C" fn on_trap(_sig: i32, _info: *mut libc::siginfo_t, _ctx: *mut libc::c
 
 fn case_json(l: &Layout, p: &Probe) -> Value {
     json!({
-        "layout": {"pkt_len": l.pkt_len, "pkt_at_end": l.pkt_at_end, "mbuff_len": l.mbuff_len, "mbuff_at_end": l.mbuff_at_end, "ranges": l.ranges, "fill": l.fill, "mbuff_gap": l.mbuff_gap},
+        "layout": {"pkt_len": l.pkt_len, "pkt_at_end": l.pkt_at_end, "mbuff_len": l.mbuff_len, "mbuff_at_end": l.mbuff_at_end, "ranges": l.ranges, "fill": l.fill, "mbuff_gap": l.mbuff_gap, "cover": l.cover},
         "probe": {
             "kind": format!("{:?}", p.kind), "width": p.width, "split": p.split, "val": p.val.to_string(), "prime": p.prime, "warm": p.warm.iter().map(|(a, b)| json!([a, b])).collect::<Vec<_>>(),
             "target": match &p.target {
@@ -656,6 +678,7 @@ fn case_from_json(v: &Value) -> Option<(Layout, Probe)> {
         ranges: lj["ranges"].as_array()?.iter().map(|r| (r[0].as_u64().unwrap_or(0) as u8, r[1].as_u64().unwrap_or(1) as u8, r[2].as_u64().unwrap_or(0) as u8)).collect(),
         fill: lj["fill"].as_u64()? as u8,
         mbuff_gap: lj["mbuff_gap"].as_u64().unwrap_or(0) as u8,
+        cover: lj["cover"].as_u64().unwrap_or(0) as u8,
     };
     let pj = &v["probe"];
     let kind = match pj["kind"].as_str()? {
@@ -686,7 +709,7 @@ fn account(st: &mut Stats, l: &Layout, p: &Probe, allowed: bool, near: bool, v: 
         return;
     }
     let region = match &p.target {
-        Target::Edge { region, .. } => match *region as usize % (2 + l.ranges.len()) {
+        Target::Edge { region, .. } => match *region as usize % (2 + l.ranges.len() + (l.cover & 1 != 0 && !l.ranges.is_empty()) as usize) {
             0 => {
                 if l.pkt_len == 0 {
                     "empty-packet"
@@ -709,6 +732,9 @@ fn account(st: &mut Stats, l: &Layout, p: &Probe, allowed: bool, near: bool, v: 
     };
     st.class(&format!("{region}:{}", if allowed { "allowed" } else { "refused" }));
     st.class(&format!("{:?}/{}", p.kind, p.width));
+    if l.cover & 1 != 0 && l.ranges.len() >= 2 {
+        st.class(&format!("covering-range-over->=2-ranges:registered-{}:{}", ["last", "first", "in-reverse", "second"][((l.cover >> 5) & 3) as usize], if allowed { "allowed" } else { "refused" }));
+    }
     if !p.warm.is_empty() && !matches!(p.kind, Kind2::LdAbs | Kind2::LdInd) {
         st.class(if allowed { "after-warm-up-loads:allowed" } else { "after-warm-up-loads:refused" });
         if l.mbuff_gap > 0 && l.pkt_len > 0 && l.mbuff_len > 0 && !allowed {
@@ -738,10 +764,10 @@ fn drive(ctx: &Ctx, eng: Eng, quick: u64, thorough: u64) {
     if ctx.tier == Tier::Thorough {
         // exhaustive window: every (region boundary, delta, kind, width) for fixed layouts
         let layouts = [
-            Layout { pkt_len: 17, pkt_at_end: true, mbuff_len: 24, mbuff_at_end: false, ranges: vec![(3, 5, 0), (200, 32, 3)], fill: 7, mbuff_gap: 0 },
-            Layout { pkt_len: 0, pkt_at_end: true, mbuff_len: 0, mbuff_at_end: false, ranges: vec![(9, 1, 0)], fill: 9, mbuff_gap: 0 },
-            Layout { pkt_len: 64, pkt_at_end: false, mbuff_len: 8, mbuff_at_end: true, ranges: vec![], fill: 1, mbuff_gap: 3 },
-            Layout { pkt_len: 1, pkt_at_end: true, mbuff_len: 64, mbuff_at_end: true, ranges: vec![(77, 8, 0), (1, 9, 1), (130, 16, 7)], fill: 3, mbuff_gap: 1 },
+            Layout { pkt_len: 17, pkt_at_end: true, mbuff_len: 24, mbuff_at_end: false, ranges: vec![(3, 5, 0), (200, 32, 3)], fill: 7, mbuff_gap: 0, cover: 0 },
+            Layout { pkt_len: 0, pkt_at_end: true, mbuff_len: 0, mbuff_at_end: false, ranges: vec![(9, 1, 0)], fill: 9, mbuff_gap: 0, cover: 0 },
+            Layout { pkt_len: 64, pkt_at_end: false, mbuff_len: 8, mbuff_at_end: true, ranges: vec![], fill: 1, mbuff_gap: 3, cover: 0 },
+            Layout { pkt_len: 1, pkt_at_end: true, mbuff_len: 64, mbuff_at_end: true, ranges: vec![(77, 8, 0), (1, 9, 1), (130, 16, 7)], fill: 3, mbuff_gap: 1, cover: 0x2b },
         ];
         let kinds = [Kind2::Ldx, Kind2::St, Kind2::Stx, Kind2::Xadd, Kind2::LdAbs, Kind2::LdInd];
         let mut n = 0u64;
